@@ -66,7 +66,7 @@ def enc_res(desc, it):
 
 # ---- generators --------------------------------------------------------------------------------------
 def gen_dm(rng):
-    c = gen.dm_case(rng, nmax=5, mmax=4, nmin=1, mmin=1, modes=("dyadic", "int"), structure=False, big=0.0)
+    c = gen.dm_case(rng, nmax=5, mmax=4, nmin=1, mmin=1, modes=("dyadic", "int"), structure=False, big=0.0, label_kinds=False)
     m = len(c["weights"])
     # an integer-valued criterion may be typed int64 or float64
     dts = [(rng.choice([0, 1]) if all(float(r[j]).is_integer() for r in c["matrix"]) else 1) for j in range(m)]
@@ -85,7 +85,7 @@ def gen_res(rng, kernel=None):
     for key in rng.sample(["score", "aux", "z"], rng.randint(0, 2)):
         extra[key] = [rng.randint(-16, 40) / 8.0 for _ in range(rng.choice([n, n, 2, 3]))]
     return {"t": "res", "kernel": kernel, "method": rng.choice(["WSM", "TOPSIS", "m"]),
-            "alternatives": gen.labels(rng, n, gen.LABEL_POOL_A, "A"), "values": [int(v) for v in vals],
+            "alternatives": gen.labels(rng, n, gen.LABEL_POOL_A, "A", kinds=False), "values": [int(v) for v in vals],
             "extra": extra}
 
 
